@@ -152,7 +152,9 @@ class CSSCharsetRule(cssrule.CSSRule):
         else:
             try:
                 codecs.lookup(encoding)
-            except LookupError:
+                # must be a text encoding a sheet can be serialised with
+                'a'.encode(encoding, 'escapecss')
+            except (LookupError, UnicodeError):
                 self._log.error(
                     'CSSCharsetRule: Unknown (Python) encoding %r.' % encoding
                 )
